@@ -173,3 +173,37 @@ CLAIMS["C20"] = dict(
          "(proposed_fixes/C20-weight-vector-single-state.diff); order-related failures depend on the C07 index-order repair (signatures *:sens-index-order).",
     technique="Lean 4: finite-sum algebra, Matrix.posSemidef_conjTranspose_mul_self, HasDerivAt product rule, decide counterexamples + model/code "
               "correspondence + finite-difference oracle + known-finding matching by model-predicted value")
+CLAIMS["C06"] = dict(
+    text="PARTIAL - assumed: scipy's integrator returns the ODE solution at the observation times within tolerance (C02 'rows are the flow' + solver accuracy), "
+         "and the per-entry kernels are C14's. Proved in Lean for every number of observations n, observed states p and states of the model: "
+         "_setWeight_or_spread returns the n x p array whose (i,j) entry is the scalar / x[j] per state / x[i] per observation (p=1) / x[i][j] on every documented shape "
+         "(broadcast_spec), succeeds on exactly the numpy shapes (1,), (p,), (n,) with p=1, (n,p), (1,p), (1,1) and a broadcastable (p,1) column (broadcast_accepts_iff), "
+         "raises ValueError only for ragged input or a non-broadcastable (p,1) column and AssertionError otherwise (broadcast_error_class); column j of what the kernel sees is "
+         "the j-th NAMED state in the order given and row i is time i (solution_selection); with target_param the k-th value is bound to the k-th supplied name (theta_bound_by_name); cost = sum_i sum_j kernel(y_ij, x_i[idxOf name_j], w_ij, spread_ij) (cost_is_loss); "
+         "square cost is 0 when the data equal the model values (square_cost_zero_at_truth, any ring). Tied to the code on every run: _setWeight_or_spread and get_state_index "
+         "against the Lean driver exactly (accepted and rejected shapes, exception class and site); cost / residual / costIV of the five real loss classes against scipy.stats "
+         "log-densities of an independent DOP853 (1e-12) trajectory of the Lean-assembled right-hand side, for 1-3 observed states in any order, every weight / spread shape, "
+         "target_param / target_state subsets in any order.",
+    note="Trusted: Lean kernel + Mathlib; harness generator and reference (scipy solve_ivp DOP853, scipy.stats); the Lean driver's `assemble` (C01) as the reference right-hand side for random "
+         "models, hand-written right-hand sides for the catalogue models (SIR, SEIR, Lotka_Volterra, FitzHugh). Tolerance: 1e-6 x sum|per-entry terms| + effect of a 1e-7 relative "
+         "perturbation of the prediction (pygom integrates at 1e-10). Cases whose reference trajectory leaves [0, 100] (population models) are not counted. "
+         "Non-claims: Poisson / Gamma / NegBinom costs ignore the weights (as coded); a (p,1) 2-D weight column is read per row (broadcast_column_quirk); costIV with target_param "
+         "given, target_state absent and len(target_param)+nS == nP is rejected by the code as ambiguous (skipped, tagged).",
+    technique="Lean 4 case analysis of the shape decision tree + list/sum lemmas; model/code correspondence; independent reference integration + scipy.stats densities")
+CLAIMS["C07"] = dict(
+    text="PARTIAL - assumed: integrating the forward-sensitivity (variational) system yields the derivative of the flow in parameters and initial values (hypothesis hsens; classical, "
+         "not in Mathlib), and each kernel's diff_loss times the weight is the derivative of its loss in the prediction (hypothesis hkernel; C14). Proved in Lean (Mathlib HasDerivAt) for every "
+         "number of states, parameters, observations, every selection and ORDER of observed states, free parameters and free initial values: the selected sensitivity column for (observed state a, "
+         "free variable b) is idx_a + (p_b+1) nS resp. idx_a + (s_b+1+nP) nS at position a + b q (sens_index_spec, sens_index_spec_IV); sens_to_grad of those columns is, entry by entry and in the "
+         "order supplied, the derivative of cost / costIV (grad_is_chain_rule, gradIV_is_chain_rule; grad_is_chain_rule_square and _normal discharge the kernel hypothesis for arbitrary weights, "
+         "grad_is_chain_rule_unit_weights is the form for Poisson / Gamma / NegBinom). These full theorems are about the REPAIRED index functions (proposed_fixes/C07-index-order.diff, "
+         "C07-target-state-index.diff), which is the variant the executable model is switched to (model_variant). For the tree as found (np.sort on the index lists) the full statement is false: "
+         "grad_order_counterexample, grad_obs_order_counterexample, target_state_counterexample (decide); grad_is_chain_rule_partial holds for ascending observed states and parameters. "
+         "Tied to the code on every run: _getTargetParamIndex / _getTargetParamSensIndex / _getTargetStateSensIndex / sens_to_grad against the Lean driver exactly on integer arrays; "
+         "sensitivity / gradient / sensitivityIV / jac (all five classes, five integrator methods, full_output) against Richardson-extrapolated central differences of the independent reference cost "
+         "and of pygom's own cost.",
+    note="On /repo without proposed_fixes/C07-*.diff this check reports VIOLATION (genuine defects: wrong gradient for observed states not in ascending index order; gradient in sorted instead of supplied "
+         "target_param order; sensitivityIV with target_state raises TypeError; a per-observation weight vector with one observed state raises; GammaLoss with one observed state raised until fix 9a6447c) - "
+         "see proposed_fixes/C07-*.diff, findings/C07_demo.py, corpus/C07/. Trusted: Lean kernel + Mathlib; harness generator, reference integration, finite differences "
+         "(tolerance 1e-4 (1+|fd|) on the 1e-12 reference; 1e-3 (1+|fd|) + 1e-7 scale/h on pygom's own cost). Non-unit weights are exercised for Square and Normal only.",
+    technique="Lean 4 + Mathlib HasDerivAt (chain rule over list sums), permutation/sortedness of index lists, decide counterexamples; model/code correspondence; finite-difference oracle")
